@@ -105,6 +105,9 @@ class UVLWriter(ModelToText):
             result = str(value).lower()
         elif isinstance(value, (list, tuple)):  # UVL vector
             result = f'[{", ".join(cls.serialize_value(val) for val in value)}]'
+            if len(value) == 1 and isinstance(value[0], int) and not isinstance(value[0], bool):
+                # '[1]' would be lexed as a cardinality, not as a vector with one integer
+                result = f'[{value[0]} ]'
         elif isinstance(value, dict):  # UVL nested attributes
             entries = [safename(str(key)) if val is None
                        else f'{safename(str(key))} {cls.serialize_value(val)}'
